@@ -336,9 +336,16 @@ impl Clock {
 		} = &mut self.state
 		{
 			*tick_timer += self.speed.value().as_ticks_per_second() * dt;
-			while *tick_timer >= 1.0 {
-				*tick_timer -= 1.0;
-				*ticks += 1;
+			if *tick_timer >= 1.0 {
+				// count all the whole ticks that have passed at once
+				let whole_ticks = tick_timer.floor();
+				*tick_timer = if whole_ticks.is_finite() {
+					*tick_timer - whole_ticks
+				} else {
+					// infinitely many ticks per second
+					0.0
+				};
+				*ticks = ticks.saturating_add(whole_ticks as u64);
 				new_tick_count = Some(*ticks);
 			}
 		} else {
